@@ -500,11 +500,13 @@ class Envelope:
         while self.expansion_level < ExpansionLevel.Matrix:
             self.expand()
 
-        self.reorder(*states)
         C = Config()
 
         if len(states) == 2 and self.state is None:
             self.combine()
+
+        # The operators are tensored in the order of the given states
+        self.reorder(*states)
 
         reshape_shape = [-1, -1]
         assert isinstance(self.fock.index, int) and isinstance(
